@@ -86,6 +86,15 @@ func limitMemory() {
 	}
 }
 
+// cpuNanos is the CPU time (user+system) this process has used.
+func cpuNanos() int64 {
+	var ru syscall.Rusage
+	if syscall.Getrusage(syscall.RUSAGE_SELF, &ru) != nil {
+		return 0
+	}
+	return ru.Utime.Nano() + ru.Stime.Nano()
+}
+
 func workerMain(args []string) int {
 	fs := flag.NewFlagSet("worker", flag.ExitOnError)
 	propID := fs.String("prop", "", "")
@@ -132,8 +141,12 @@ func workerMain(args []string) int {
 		}
 	}
 
-	// wall-clock watchdog on single runs (harness safety net; generous)
+	// Watchdog on single runs, measured in CPU time of this process so that a
+	// loaded machine cannot turn a slow run into a "hang" (an endless loop burns
+	// CPU; a starved process does not). A wall-clock backstop (20x) catches a run
+	// that blocks without using CPU.
 	var runStarted atomic.Int64
+	var runStartCPU atomic.Int64
 	var curRun atomic.Uint64
 	timeout := eng.RunTimeout
 	if timeout == 0 {
@@ -143,10 +156,15 @@ func workerMain(args []string) int {
 		for {
 			time.Sleep(500 * time.Millisecond)
 			st := runStarted.Load()
-			if st != 0 && time.Since(time.Unix(0, st)) > timeout {
+			if st == 0 {
+				continue
+			}
+			cpu := time.Duration(cpuNanos() - runStartCPU.Load())
+			wall := time.Since(time.Unix(0, st))
+			if cpu > timeout || wall > 20*timeout {
 				buf := make([]byte, 1<<18)
 				n := runtime.Stack(buf, true)
-				fmt.Fprintf(os.Stderr, "HANG run=%d engine=%s after %v\n%s\nENDHANG\n", curRun.Load(), eng.Name, timeout, buf[:n])
+				fmt.Fprintf(os.Stderr, "HANG run=%d engine=%s after %v of CPU time (%v wall)\n%s\nENDHANG\n", curRun.Load(), eng.Name, cpu.Round(time.Second), wall.Round(time.Second), buf[:n])
 				os.Exit(7)
 			}
 		}
@@ -172,6 +190,7 @@ func workerMain(args []string) int {
 			jf.WriteAt([]byte(fmt.Sprintf("%020d\n", i)), 0)
 		}
 		curRun.Store(i)
+		runStartCPU.Store(cpuNanos())
 		runStarted.Store(time.Now().UnixNano())
 		src := core.NewRandomSource(rs)
 		out := core.Execute(p.ID, eng.Name, eng.Run, src, false)
